@@ -22,7 +22,7 @@ TOV = {"sort.Sort": "verifSort", ISO + "ParseTime": "verifParseTime", ISO + "Par
 
 
 def tsc(entry, name, bounds, eo, tiers=("quick", "thorough"), K=70):
-    return dict(name=name, entry=entry, harness="timer", K=K, reach=["quiescent"], overrides=TOV, tiers=tiers,
+    return dict(name=name, entry=entry, harness="timer", K=K, reach=["quiescent"], overrides=TOV, tiers=tiers, native=False,
                 expect_obligations=eo, bounds=bounds)
 
 
